@@ -79,6 +79,10 @@ def gen_setpwm(r, tier):
             ks = sorted(pm)
             fixed = [k for k in ks if pm[k] == k] or ks
             for _ in range(r.pick([1, 2, 3])):
+                if r.chance(0.4):
+                    # the device is enumerated again (the configured path, a symbolic link, now leads to a fresh directory):
+                    # the next request has to reach THAT device (seed C12k: resolved paths cached)
+                    ops.append(f"w.dev reprobe=1 pwm={r.range(0, 255)}")
                 ops.append(f"w.setpwm t={r.pick(ts)}")
                 ops.append(f"w.dev glitch={r.pick([1, 2, 3, 3, 3])}")
                 ops.append(f"w.setpwm t={r.pick(fixed) if r.chance(0.7) else r.range(-50, 305)}")
